@@ -259,6 +259,7 @@ type caseCtx struct {
 	commits  []commit // writer-phase commits of all sessions (resume points)
 	corrupt  *rand.Rand
 	noOracle bool // malformed stream: correspondence only
+	aborted  bool // Append panicked: the history ends there
 }
 
 func (c *caseCtx) mkOpts(fs gofs.FS) fsbinlog.Options {
@@ -527,12 +528,35 @@ func (c *caseCtx) session(from int64, meta []byte, nBatches int) bool {
 			bufBefore, _, _, _ := fsbinlog.VerifBuf(bl)
 			var next int64
 			var aerr error
-			if asap {
-				next, aerr = bl.AppendASAP(inOff, data)
-			} else {
-				next, aerr = bl.Append(inOff, data)
+			panicked := func() (p bool) {
+				defer func() {
+					if rec := recover(); rec != nil {
+						p = true
+						h.Note("Append panicked: %v", rec)
+					}
+				}()
+				if asap {
+					next, aerr = bl.AppendASAP(inOff, data)
+				} else {
+					next, aerr = bl.Append(inOff, data)
+				}
+				return false
+			}()
+			bufAfter, crc, offAfter, _ := fsbinlog.VerifBuf(bl)
+			if panicked {
+				h.Op("app %d %d %d %d %d %s", b2i(asap), inOff, 0, 0, 0, spec)
+				h.Obs("app res=panic next=%d crc=%d add=0", offAfter, crc)
+				h.Stat("app.panic", 1)
+				h.Viol("append-panic", "Append(%d, %d bytes) panicked in putLevToBuffer (chunk size %d, session resumed at %d in the first chunk)", inOff, len(data), c.chunk, from)
+				c.aborted = true
+				bl.RequestShutdown()
+				eng.gate <- struct{}{}
+				select {
+				case <-done:
+				case <-time.After(20 * time.Second):
+				}
+				return false
 			}
-			bufAfter, crc, _, _ := fsbinlog.VerifBuf(bl)
 			added := bufAfter[len(bufBefore):]
 			var ts, h1, h2 uint64
 			extra := added[min(len(added), fsbinlog.AddPadding(len(data))):]
@@ -1055,6 +1079,9 @@ func main() {
 					meta = nil
 				}
 			}
+		}
+		if c.aborted {
+			return
 		}
 		func() {
 			defer func() {
